@@ -36,7 +36,7 @@ def anchors():
 
 def cases(seed, tier):
     q = tier == "quick"
-    out = [{"fam": "series", "seed": [seed, 10, i], "nseq": 2} for i in range(48 if q else 700)]
+    out = [{"fam": "series", "seed": [seed, 10, i], "nseq": 2} for i in range(64 if q else 700)]
     out += [{"fam": "furrow", "seed": [seed, 10, 10 ** 5 + i], "nseq": 1} for i in range(2 if q else 30)]
     return out
 
